@@ -312,6 +312,55 @@ fn suffix_ban(w: &World, foreign: &BlsCache, loc: &mut Local) -> Result<(), (Str
     Ok(())
 }
 
+/// no AGG_SIG condition at all: the empty multiset is signed by the identity and by nothing else
+fn empty_set(w: &World, foreign: &BlsCache, loc: &mut Local) -> Result<(), (String, String)> {
+    let c = TEST_CONSTANTS.clone();
+    let shapes: Vec<(&str, Vec<Spend>)> = vec![
+        ("one-spend", vec![Spend { parent: P1, amount: 5, conds: vec![], quoted: false }]),
+        ("two-spends", vec![Spend { parent: P1, amount: 5, conds: vec![], quoted: false }, Spend { parent: P2, amount: 1 << 39, conds: vec![], quoted: true }]),
+    ];
+    let mut gen2 = Signature::generator();
+    gen2.scalar_multiply(&[2]);
+    let sigs: Vec<(&str, Signature, bool)> = vec![
+        ("identity", Signature::default(), true),
+        ("generator", Signature::generator(), false),
+        ("2*generator", gen2, false),
+        ("a-real-signature", sign(&w.sks[0], b"unrelated"), false),
+    ];
+    for (sn, spends) in &shapes {
+        for (gn, sig, ok) in &sigs {
+            require(&format!("no-agg-sig/{sn}/{gn}"), spends, sig, &c, foreign, *ok, loc)?;
+        }
+    }
+    Ok(())
+}
+
+/// infinity keys offered to the pairing cache directly (the consensus parser refuses them earlier):
+/// the verdict must be the cache-free one on the cold call and on every warm call
+fn infinity_through_cache(w: &World, loc: &mut Local) -> Result<(), (String, String)> {
+    let inf = chia_bls::PublicKey::default();
+    let pk0 = w.sks[0].public_key();
+    let m: &[u8] = b"hello";
+    let lists: Vec<(&str, Vec<(chia_bls::PublicKey, &[u8])>, Signature)> = vec![
+        ("only-infinity/identity-signature", vec![(inf, m)], Signature::default()),
+        ("key+infinity/signature-of-key", vec![(pk0, m), (inf, m)], sign(&w.sks[0], m)),
+        ("infinity+key/signature-of-key", vec![(inf, m), (pk0, m)], sign(&w.sks[0], m)),
+    ];
+    for (name, list, sig) in lists {
+        let want = chia_bls::aggregate_verify(&sig, list.iter().map(|(k, m)| (k, *m)));
+        let cache = BlsCache::new(NonZeroUsize::new(100).unwrap());
+        for call in ["cold", "warm", "warm-again"] {
+            loc.evals += 1;
+            let got = cache.aggregate_verify(list.iter().map(|(k, m)| (k, *m)), &sig);
+            if got != want {
+                return Err((format!("infinity-key/{name}/{call}-cache"), format!("{name}: aggregate_verify without a cache returns {want}, BlsCache::aggregate_verify ({call}) returns {got}")));
+            }
+        }
+        *loc.b.entry(format!("infinity-key/{name}/{}", if want { "accept" } else { "reject" })).or_insert(0) += 1;
+    }
+    Ok(())
+}
+
 /// two spends, every ordered pair of opcodes
 fn pairs_case(w: &World, o1: u8, o2: u8, foreign: &BlsCache, loc: &mut Local) -> Result<(), (String, String)> {
     let c = TEST_CONSTANTS.clone();
@@ -338,7 +387,7 @@ fn run(rep: &Report) {
     let pks = sks.iter().map(|k| k.public_key().to_bytes().to_vec()).collect();
     let w = World { sks, pks };
     let thorough = rep.tier == mc::Tier::Thorough;
-    rep.set_rule("base cases: 8 AGG_SIG opcodes x 23 coin amounts (every minimal-encoding length class boundary) x message of 1 byte (quick; '' and 32 bytes on one amount) / {'', 1, 32, 1024 bytes} (thorough) with a second fixed AGG_SIG_UNSAFE pair; each signed by the harness over its own rule table and run through parse_spends (block and mempool visitor; no / cold / warm / foreign-warm BlsCache), run_block_generator2 and validate_clvm_and_signature; pairs reported by run_spendbundle and the text from make_aggsig_final_message compared with the rule table; then 17 single-point tamperings per base case, each expected to be rejected exactly when it changes the signed (key, message) multiset; AGG_SIG_UNSAFE suffix ban: 7 constants x 6 message shapes; thorough: all 64 ordered opcode pairs over two spends. distinct = distinct (case, tampering)");
+    rep.set_rule("base cases: 8 AGG_SIG opcodes x 23 coin amounts (every minimal-encoding length class boundary) x message of 1 byte (quick; '' and 32 bytes on one amount) / {'', 1, 32, 1024 bytes} (thorough) with a second fixed AGG_SIG_UNSAFE pair; each signed by the harness over its own rule table and run through parse_spends (block and mempool visitor; no / cold / warm / foreign-warm BlsCache), run_block_generator2 and validate_clvm_and_signature; pairs reported by run_spendbundle and the text from make_aggsig_final_message compared with the rule table; then 17 single-point tamperings per base case, each expected to be rejected exactly when it changes the signed (key, message) multiset; AGG_SIG_UNSAFE suffix ban: 7 constants x 6 message shapes; bundles without any AGG_SIG condition (1 and 2 spends) x {identity, generator, 2*generator, an unrelated real signature} on every path (only the identity signs the empty multiset); 3 pair lists containing the infinity key through BlsCache::aggregate_verify cold / warm / warm again against the cache-free verdict; thorough: all 64 ordered opcode pairs over two spends. distinct = distinct (case, tampering)");
     rep.assume("the harness signer is chia_bls::sign / aggregate with the harness's own secret keys (covered by C15/C16); forgeries that are not single-point edits are out of scope");
     // a cache warmed by an unrelated valid bundle
     let foreign = BlsCache::new(NonZeroUsize::new(1000).unwrap());
@@ -392,6 +441,19 @@ fn run(rep: &Report) {
             rep.outcome_n(&k, n);
         }
     }
+    for (kind, f) in [("empty-set", 0u8), ("infinity", 1u8)] {
+        let mut loc = Local { evals: 0, b: BTreeMap::new() };
+        let r = catch(|| if f == 0 { empty_set(&w, &foreign, &mut loc) } else { infinity_through_cache(&w, &mut loc) });
+        match r {
+            Ok(Ok(())) => rep.distinct(fxhash(&("extra", kind))),
+            Ok(Err((sig, d))) => rep.violation(&format!("C05/{sig}"), json!({"kind": kind}), d),
+            Err(p) => rep.violation("C05/panic", json!({"kind": kind}), p),
+        }
+        rep.evals(loc.evals);
+        for (k, n) in loc.b {
+            rep.outcome_n(&k, n);
+        }
+    }
     if thorough {
         let pairs: Vec<(u8, u8)> = OPS.iter().flat_map(|a| OPS.iter().map(move |b| (*a, *b))).collect();
         pairs.par_iter().for_each(|(o1, o2)| {
@@ -420,6 +482,8 @@ fn replay(case: &Value) -> String {
     match case["kind"].as_str() {
         Some("base") => format!("{:?}", base_case(&w, case["op"].as_u64().unwrap() as u8, case["amount"].as_u64().unwrap(), &hex::decode(case["msg"].as_str().unwrap()).unwrap(), &foreign, &mut loc)),
         Some("pair") => format!("{:?}", pairs_case(&w, case["o1"].as_u64().unwrap() as u8, case["o2"].as_u64().unwrap() as u8, &foreign, &mut loc)),
+        Some("empty-set") => format!("{:?}", empty_set(&w, &foreign, &mut loc)),
+        Some("infinity") => format!("{:?}", infinity_through_cache(&w, &mut loc)),
         _ => format!("{:?}", suffix_ban(&w, &foreign, &mut loc)),
     }
 }
